@@ -87,7 +87,7 @@ type viTrace struct {
 
 type viLayout struct {
 	Layout   int                   `json:"layout"`
-	Status   string                `json:"status"` // ok tainted diverged storemismatch error
+	Status   string                `json:"status"` // ok storemismatch (both driven) | tainted diverged error (skipped)
 	Note     string                `json:"note,omitempty"`
 	Conc     vsConc                `json:"conc"`
 	Samples  map[string][][3]int64 `json:"samples"`  // chan -> [timestamp, abstract time, id]
@@ -229,17 +229,17 @@ func viBuild(job viJob) (*viLay, viLayout) {
 		return fail("error", "empty script")
 	}
 	l.last = job.Hist[len(job.Hist)-1]
-	// the stored content must be what the script says (C01/C04's subject); otherwise an
-	// iterator mismatch could not be attributed to the iterator.
+	// The stored content should be what the script says (C01/C04's subject). DB.Read is
+	// itself an iterator traversal (SeekFirst + Next(max span)), so a difference here is
+	// recorded but the layout is still driven: the traces decide.
 	full := telem.TimeRange{Start: l.pt(-1), End: l.pt(job.MaxT + 1)}
 	for _, ch := range []string{"I", "D", "V"} {
 		exp := r.expected(l.last, ch, full.Start, full.End)
 		act, err := r.actual(ch, full)
 		if err != nil {
-			return fail("storemismatch", "read "+ch+": "+err.Error())
-		}
-		if !vsEqual(exp, act) {
-			return fail("storemismatch", fmt.Sprintf("channel %s full read %s, spec %s", ch, vsShow(act, ch), vsShow(exp, ch)))
+			out.Status, out.Note = "storemismatch", "read "+ch+": "+err.Error()
+		} else if !vsEqual(exp, act) {
+			out.Status, out.Note = "storemismatch", fmt.Sprintf("channel %s full read %s, spec %s", ch, vsShow(act, ch), vsShow(exp, ch))
 		}
 	}
 	// decoding tables: every (time, id) value the script could have produced
